@@ -23,7 +23,7 @@ from common import cnat, clist, cstr
 
 LEVEL = "proof"
 THEOREMS = "Props/C08.v"
-EXTRA_TARGETS = ("Gen/SchedSasa.vo",)
+EXTRA_TARGETS = ("Gen/SchedSasa.vo", "Gen/SchedKernels.vo")
 EXTS = ["_geometry", "_rmsd", "drid", "neighbors", "neighborlist"]
 RULE = ("(environment, trajectory, analysis) triples: environment = OMP_NUM_THREADS in {1,2,3,5,8,16,frames+3} x OMP_SCHEDULE in "
         "{static,dynamic,guided} x OMP_DYNAMIC in {unset,true}, one process each; trajectory = frames of tests/data/2EQQ.pdb or "
@@ -200,6 +200,76 @@ def gen_text(ops, shared, note):
             % (note, "; ".join(o[1] for o in ops), clist([cstr(s) for s in shared])))
 
 
+# (term name, file, mode, function, preprocessor defines): every per-frame loop / per-call kernel that is scanned
+KERNELS = [
+    ("dssp_loop", "mdtraj/geometry/src/dssp.cpp", "loop", "dssp", ()),
+    ("kabsch_sander_loop", "mdtraj/geometry/src/geometry.cpp", "loop", "kabsch_sander", ()),
+    ("dist_loop", "mdtraj/geometry/src/kernels/distancekernels.h", "loop", "dist", ()),
+    ("dist_mic_loop", "mdtraj/geometry/src/kernels/distancekernels.h", "loop", "dist_mic", ("COMPILE_WITH_PERIODIC_BOUNDARY_CONDITIONS",)),
+    ("dist_mic_triclinic_loop", "mdtraj/geometry/src/geometry.cpp", "loop", "dist_mic_triclinic", ()),
+    ("angle_loop", "mdtraj/geometry/src/kernels/anglekernels.h", "loop", "angle", ()),
+    ("angle_mic_loop", "mdtraj/geometry/src/kernels/anglekernels.h", "loop", "angle_mic", ("COMPILE_WITH_PERIODIC_BOUNDARY_CONDITIONS",)),
+    ("angle_mic_triclinic_loop", "mdtraj/geometry/src/kernels/anglekernels.h", "loop", "angle_mic_triclinic",
+     ("COMPILE_WITH_PERIODIC_BOUNDARY_CONDITIONS", "COMPILE_WITH_TRICLINIC")),
+    ("dihedral_loop", "mdtraj/geometry/src/kernels/dihedralkernels.h", "loop", "dihedral", ()),
+    ("dihedral_mic_loop", "mdtraj/geometry/src/kernels/dihedralkernels.h", "loop", "dihedral_mic", ("COMPILE_WITH_PERIODIC_BOUNDARY_CONDITIONS",)),
+    ("dihedral_mic_triclinic_loop", "mdtraj/geometry/src/kernels/dihedralkernels.h", "loop", "dihedral_mic_triclinic",
+     ("COMPILE_WITH_PERIODIC_BOUNDARY_CONDITIONS", "COMPILE_WITH_TRICLINIC")),
+    ("center_loop", "mdtraj/rmsd/src/center_sse.h", "loop", "inplace_center_and_trace_atom_major", ()),
+    ("compute_neighbors_call", "mdtraj/geometry/src/neighbors.cpp", "call", "_compute_neighbors", ()),
+    ("drid_moments_call", "mdtraj/geometry/src/dridkernels.cpp", "call", "drid_moments", ()),
+    ("moments_clear_call", "mdtraj/geometry/src/moments.cpp", "call", "moments_clear", ()),
+    ("moments_push_call", "mdtraj/geometry/src/moments.cpp", "call", "moments_push", ()),
+    ("moments_mean_call", "mdtraj/geometry/src/moments.cpp", "call", "moments_mean", ()),
+    ("moments_second_call", "mdtraj/geometry/src/moments.cpp", "call", "moments_second", ()),
+    ("moments_third_call", "mdtraj/geometry/src/moments.cpp", "call", "moments_third", ()),
+]
+
+
+def scan_kernels(repo=None):
+    """[(name, Term)] for KERNELS; raises C08_scan.ScanError when a source is outside the scanner's grammar."""
+    from props import C08_scan
+    repo = repo or common.REPO
+    out = []
+    for name, rel, mode, fn, defs in KERNELS:
+        with open(os.path.join(repo, rel)) as fh:
+            src = fh.read()
+        try:
+            T = C08_scan.scan_loop(src, fn, defines=defs) if mode == "loop" else C08_scan.scan_percall(src, fn, defines=defs)
+        except C08_scan.ScanError as e:
+            raise C08_scan.ScanError("%s (%s:%s): %s" % (name, rel, fn, e))
+        out.append((name, rel, mode, fn, T))
+    return out
+
+
+def gen_kernels_text(scanned):
+    lines = ["(* GENERATED on every run by harness/props/C08.py + C08_scan.py from mdtraj's C/C++ sources: one term of",
+             "   MD.Sched.FrameLoop per per-frame loop (and per per-call kernel, whose body is the iteration and whose only",
+             "   possible carried state is static / file-scope variables).  Per-run obligations: every term is disciplined",
+             "   (no scratch read before this iteration wrote it; every cursor that is used is advanced once per iteration,",
+             "   after its last use) and no per-call kernel writes static / file-scope state.  A term that fails stops the build. *)",
+             "From Coq Require Import String.", "From Coq Require Import List ZArith Bool.", "Import ListNotations.",
+             "Require Import MD.Sched.FrameLoop.", "Open Scope Z_scope.", ""]
+    names = []
+    shared = []
+    for name, rel, mode, fn, T in scanned:
+        lines.append("(* %s : %s in %s%s" % (name, fn, rel, "" if mode == "loop" else " (per call)"))
+        lines.append("   %s *)" % T.legend().replace("*)", "* )").replace("(*", "( *"))
+        lines.append("Definition %s : fprog :=\n  %s." % (name, T.coq()))
+        lines.append("")
+        names.append(name)
+        if mode == "call":
+            shared += ["%s:%s" % (fn, v) for v in T.shared]
+    lines.append("Definition scanned_kernels : list (string * fprog) :=\n  [%s]." % ";\n   ".join('("%s"%%string, %s)' % (n, n) for n in names))
+    lines.append("Definition percall_static_written : list string := %s." % clist([cstr(s) for s in shared]))
+    lines.append("")
+    lines.append("Lemma scanned_kernels_disciplined : forallb (fun k => fdisc (snd k)) scanned_kernels = true.")
+    lines.append("Proof. vm_compute. reflexivity. Qed.")
+    lines.append("Lemma percall_kernels_stateless : percall_static_written = [].")
+    lines.append("Proof. reflexivity. Qed.")
+    return "\n".join(lines) + "\n"
+
+
 _STATIC = {}
 LINTED = ("mdtraj/geometry/src/sasa.cpp", "mdtraj/geometry/src/neighborlist.cpp", "mdtraj/rmsd/src/center_sse.h")
 
@@ -218,11 +288,36 @@ def static_view():
 
 
 def translate(ctx):
+    ce = ctx.notes.setdefault("coverage_extra", {})
+    # 1. every per-frame loop / per-call kernel -> a term of MD.Sched.FrameLoop (fail closed: file not refreshed)
+    try:
+        scanned = scan_kernels()
+        ctx.write_gen("Gen/SchedKernels.v", gen_kernels_text(scanned))
+        ce["frame_loops_scanned_from_source"] = {n: len(T.ops) for n, _r, _m, _f, T in scanned}
+        ce["percall_static_written"] = [s for _n, _r, m, f, T in scanned if m == "call" for s in T.shared]
+    except Exception as e:
+        ctx.notes["translator"] = "degraded (frame-loop scanner): %s" % e
+        ctx.log("frame-loop scanner degraded:", e)
+        ce["frame_loops_scanned_from_source"] = "degraded: %s" % e
+    # 2. the SASA loop skeleton and the omp shared-variable lint
     v = static_view()
     ctx.write_gen("Gen/SchedSasa.v", gen_text(v["ops"], v["shared"], "ops: %s" % " ".join(v["tags"])))
-    ce = ctx.notes.setdefault("coverage_extra", {})
     ce["sasa_loop_skeleton_from_source"] = v["tags"]
     ce["variables_written_by_all_threads"] = v["shared"]
+
+
+def diagnose_kernels(ctx):
+    """When the build broke: which scanned kernel fails the discipline (evaluated by coqc on the generated terms alone)."""
+    try:
+        scanned = scan_kernels()
+    except Exception as e:
+        return "scanner: %s" % e
+    defs = "\n".join("Definition %s : fprog :=\n  %s." % (n, T.coq()) for n, _r, _m, _f, T in scanned)
+    expr = "[%s]" % "; ".join('("%s"%%string, fdisc %s)' % (n, n) for n, _r, _m, _f, T in scanned)
+    rc, out = ctx.coq_eval(["MD.Sched.FrameLoop"], expr, prelude="Open Scope Z_scope.\n" + defs)
+    bad = re.findall(r'\("(\w+)"%string,\s*false\)', out)
+    stat = [s for _n, _r, m, f, T in scanned if m == "call" for s in ["%s:%s" % (f, v) for v in T.shared]]
+    return {"undisciplined": bad, "percall_static_written": stat}
 
 
 # ------------------------------------------------------------------------------------------ environments / inputs
@@ -464,6 +559,13 @@ def correspond(ctx):
     if not v["disciplined"] and not carried:
         ctx.break_("correspondence:sasa-skeleton", "sasa.cpp's loop skeleton %s reads the buffer before writing it but no "
                                                     "carry-over was observed" % v["tags"])
+    if any(b["name"].startswith("proof:") for b in ctx.broken):
+        d = diagnose_kernels(ctx)
+        ctx.notes.setdefault("coverage_extra", {})["frame_loop_diagnosis"] = d
+        ctx.log("frame-loop diagnosis:", d)
+        for b in ctx.broken:
+            if b["name"].startswith("proof:"):
+                b["detail"] = ("frame-loop terms regenerated from the sources: %s\n" % d) + b["detail"]
     if ctx.tier != "quick":
         stress_shared_counter(ctx)
 
